@@ -335,3 +335,12 @@ def x6(ctx):
 
 
 RULES.append(x6)
+
+
+@rule("X7", doc="the renaming the extractor applies to e-nodes (apply_slotmap_fresh) gives every uncovered slot its own fresh name, the same for all its occurrences (C03.H6)")
+def x7(ctx):
+    from . import c03
+    c03.h6(ctx)
+
+
+RULES.append(x7)
